@@ -12,7 +12,7 @@ import glob, os, re
 from . import gen
 
 TRANSLATION = {"New", "NewWithErr", "FromBasePath", "fromBasePath", "hasBasePath", "curDir",
-               "FromPathError", "FromLinkError", "ToBasePath"}
+               "FromPathError", "FromLinkError", "ToBasePath", "isRoot", "errRoot"}
 
 # identifiers of os / filepath / io a generic avfs function may use without touching a file system
 OS_OK = {"O_RDONLY", "O_WRONLY", "O_RDWR", "O_APPEND", "O_CREATE", "O_EXCL", "O_SYNC", "O_TRUNC",
@@ -232,16 +232,24 @@ def shape_of(f, all_names):
     if f["name"] in TRANSLATION and not isfile:
         return "Translation", guards
     # early returns on an empty parameter that do not touch the base
+    # and early refusals of the root directory: if vfs.isRoot(p) { return &fs.PathError{..., Path: p, ...} }
     while True:
         m = re.match(r'^if (' + ID + r') == "" \{', body)
-        if not m:
+        mr = None if isfile else re.match(r'^if ' + re.escape(v) + r'\.isRoot\((' + ID + r')\) \{', body)
+        if not m and not mr:
             break
-        o = m.end() - 1
+        g = m or mr
+        o = g.end() - 1
         c = match_close(body, o, "{", "}")
         blk = body[o + 1:c].strip()
         if "baseFS" in blk or "baseFile" in blk or "ToBasePath" in blk or not ends_with_return(blk):
-            raise Shape("guard on %s touches the base or does not return" % m.group(1))
-        guards.append(m.group(1))
+            raise Shape("guard on %s touches the base or does not return" % g.group(1))
+        if mr:
+            if g.group(1) not in dict(params) or not re.fullmatch(r"return &fs\.PathError\{[^{}]*\bPath: " + g.group(1) + r"\b[^{}]*\}", blk):
+                raise Shape("root guard on %s does not return a PathError carrying the caller's path" % g.group(1))
+            guards.append("root:" + g.group(1))
+        else:
+            guards.append(g.group(1))
         body = body[c + 1:].strip()
     B = re.escape(base)
     T = re.escape(trv)
@@ -450,11 +458,12 @@ def render(methods, fns):
          "Definition bp_methods : list method := ["]
     ents = []
     for m in methods:
-        ents.append("  {| m_recv := %s; m_name := %s;\n     m_params := [%s]; m_results := [%s]; m_guard_empty := [%s];\n     m_shape := %s |}" % (
+        ents.append("  {| m_recv := %s; m_name := %s;\n     m_params := [%s]; m_results := [%s]; m_guard_empty := [%s]; m_guard_root := [%s];\n     m_shape := %s |}" % (
             coq_str(m["recv"]), coq_str(m["name"]),
             "; ".join("(%s, %s)" % (coq_str(a), coq_str(t)) for (a, t) in m["params"]),
             "; ".join(coq_str(t) for t in m["results"]),
-            "; ".join(coq_str(g) for g in m["guards"]),
+            "; ".join(coq_str(g) for g in m["guards"] if not g.startswith("root:")),
+            "; ".join(coq_str(g[5:]) for g in m["guards"] if g.startswith("root:")),
             coq_shape(m["shape"])))
     L.append(";\n".join(ents))
     L.append("].")
